@@ -316,6 +316,12 @@ func parseGroup(mp *msgParser, tags []Tag) {
 	fields := getGroupFields(mp.msg, tags, mp.appDataDictionary)
 
 	for {
+		if mp.fieldIndex+1 >= len(mp.msg.fields) {
+			// The message ends inside the group (no trailer follows): keep what was read
+			// and let the caller report the missing CheckSum.
+			mp.msg.Body.add(dm)
+			return
+		}
 		mp.fieldIndex++
 		mp.parsedFieldBytes = &mp.msg.fields[mp.fieldIndex]
 		mp.rawBytes, _ = extractField(mp.parsedFieldBytes, mp.rawBytes)
